@@ -751,4 +751,13 @@ def rule_no_stale_events(ctx: Ctx):
     c04.rule_clear(ctx, rule="C01.reject")
 
 
-RULES = [rule_loop, rule_none, rule_match, rule_allof, rule_expected, rule_reject, rule_write, rule_copied_guards, rule_decided_at_dequeue, rule_stored_callable, rule_awaited_verdict, rule_validator_exception_reaches_caller, rule_no_stale_events]
+def rule_declared_events_reach_their_transitions(ctx: Ctx):
+    """C01.match: "bound to that event" is what the class body declared: every id-less placeholder `Event()` of a transition's event
+    list is replaced by the named event on every transition that carries it (a placeholder left behind keeps an internal id no
+    `send` can name: the declared event is refused in a state that declares it)."""
+    from . import c15
+
+    c15.rule_attributes(ctx, rule="C01.match")
+
+
+RULES = [rule_loop, rule_none, rule_match, rule_allof, rule_expected, rule_reject, rule_write, rule_copied_guards, rule_decided_at_dequeue, rule_stored_callable, rule_awaited_verdict, rule_validator_exception_reaches_caller, rule_no_stale_events, rule_declared_events_reach_their_transitions]
